@@ -188,7 +188,7 @@ def step (line : String) : String :=
     | some a, some env, some o =>
       let T := if tbl == "nist" then Spec.nist else Spec.lib
       let adv : Option ModVal := match a.adducts, o.adducts with
-        | some (m :: _), none => some m.val
+        | some l, none => adductsValue l
         | _, x => x
       let ad : Option (Option (List Nat)) := match adv with
         | none => some none
